@@ -28,7 +28,9 @@ func VerifChain() {
 	for i := 0; i < n; i++ {
 		ps = append(ps, vPos(i))
 	}
-	e := NewErr(files[0], ps[0], "boom")
+	// the message is text, not a format: percent signs, verbs and line breaks are rendered as they are
+	boom := []string{"boom", "unsupported operand type(s) for %: int and str", "100%d %s %v %% %!", "two\nlines"}[verifnd.Choice(4)]
+	e := NewErr(files[0], ps[0], boom)
 	for i := 1; i < n; i++ {
 		e.ChainAppend(files[i], ps[i])
 	}
@@ -41,13 +43,13 @@ func VerifChain() {
 	want := ""
 	for i := 0; i < n; i++ {
 		if i == 0 {
-			want += files[0] + ":" + vItoa(ps[0].Ln) + ":" + vItoa(ps[0].Col) + ": boom"
+			want += files[0] + ":" + vItoa(ps[0].Ln) + ":" + vItoa(ps[0].Col) + ": " + boom
 		} else {
 			want += "\n" + files[i] + ":" + vItoa(ps[i].Ln) + ":" + vItoa(ps[i].Col) + ":"
 		}
 	}
 	verifnd.Assert(e.Error() == want, "rendering")
-	verifnd.Assert(strings.Count(e.Error(), "\n") == n-1, "one-line-per-outer-call-site")
+	verifnd.Assert(strings.Count(e.Error(), "\n") == n-1+strings.Count(boom, "\n"), "one-line-per-outer-call-site")
 
 	// independence of copies, every order of three appends through three holders
 	c1 := e.Copy()
@@ -77,7 +79,7 @@ func VerifChain() {
 		}
 		l := x.PosChain[n]
 		verifnd.Assert(l.File == file && l.Ln == p.Ln && l.Col == p.Col && l.Pos == int(p.Pos), label+":own-append-kept")
-		verifnd.Assert(x.Err == "boom", label+":message")
+		verifnd.Assert(x.Err == boom, label+":message")
 	}
 	check(e, "orig.p", pa, "original")
 	check(c1, "copy1.p", pb, "copy1")
